@@ -2,7 +2,9 @@ package props
 
 import (
 	"fmt"
+	"go/token"
 	"go/types"
+	"strings"
 
 	"verif/third_party/xtools/go/ssa"
 
@@ -37,6 +39,7 @@ func c07Rules(p *core.Prog, r *core.Run) {
 
 	// --- B2: buffers
 	c07Buffers(p, r, m, "C07.B2")
+	transportCensus(p, r, m, "C07.B4")
 
 	// a truncated record that came with an error is queued, never parsed: the
 	// retry-mode entry conditions of C06 (no read error, ...)
@@ -109,6 +112,52 @@ func c07Rules(p *core.Prog, r *core.Run) {
 			r.Check("C07.B3", fmt.Sprintf("Read:no-drop#%d", i), stored || refused, p.InstrPos(ret), "this return of Read follows a readRecord call: the record (or the part that arrived before an error) was put into readBuf first (%v), or the handler refused a retried hello (%v)", stored, refused)
 		}
 	}
+	directionOwnership(p, r, m, "C07.B4")
+	// Write reports success only after it has looked at everything buffered:
+	// every success return is the passthrough write's own result or lies behind
+	// the record loop (a shortcut in front of the loop, taken on remembered
+	// state, can hold back complete records)
+	{
+		var hdr *ssa.BasicBlock
+		var body map[*ssa.BasicBlock]bool
+		for h, b := range core.Loops(m.write) {
+			for blk := range b {
+				for _, in := range blk.Instrs {
+					if c, ok := in.(ssa.CallInstruction); ok && c.Common().StaticCallee() != nil && c.Common().StaticCallee().Name() == "inspectWrite" {
+						hdr, body = h, b
+					}
+				}
+			}
+		}
+		if hdr == nil {
+			// the inspector inlined: the loop that slices writeBuf
+			for h, b := range core.Loops(m.write) {
+				for _, st := range fieldStores(p, []*ssa.Function{m.write}, m.fConn["writeBuf"]) {
+					if b[st.Block()] {
+						hdr, body = h, b
+					}
+				}
+			}
+		}
+		if hdr == nil {
+			r.Undecided("C07.B4", "Write:record-loop", p.Pos(m.write.Pos()), "no record loop found in Write")
+		} else {
+			for i, ret := range core.Returns(m.write) {
+				if !lastResultNil(ret) {
+					continue
+				}
+				direct := false
+				for _, a := range p.X(ret.Results[0]).Alts() {
+					if a.Op == "ext" && a.Args[0].Op == "call" && strings.HasSuffix(a.Args[0].Name, ".Write") {
+						direct = true
+					}
+				}
+				after := hdr.Dominates(ret.Block()) && !body[ret.Block()]
+				r.Check("C07.B4", fmt.Sprintf("Write:success#%d", i), direct || after, p.InstrPos(ret), "a successful return of Write is the direct write's own result (%v) or comes after the record loop has run out (%v)", direct, after)
+			}
+		}
+	}
+	refusedNotBuffered(p, r, m, "C07.B3")
 	nErrRet := 0
 	// (the error returned may have been selected beforehand - `var err error;
 	// if len(c.readBuf) == 0 { err = c.readErr }; return n, err` - each way the
@@ -348,6 +397,159 @@ func recordLimit(p *core.Prog, r *core.Run, m *echModel, rule string) {
 	}
 }
 
+// transportCensus: every byte between the peers passes through Read and Write
+// of the Conn: (1) the Conn declares no method that lets a copier go round
+// them (io.Copy prefers ReadFrom/WriteTo when the destination/source has them);
+// (2) the embedded transport is used only for: reading a record (readRecord),
+// the passthrough read in Read, writes in Write, and being closed or given
+// deadlines; it is not handed to anything else and not converted to another
+// interface. Reported under C07 (pipe), C01 and C06 (a HelloRetryRequest that
+// does not pass through Write is not seen).
+func transportCensus(p *core.Prog, r *core.Run, m *echModel, rule string) {
+	// (1) methods
+	connT := m.fConn["readBuf"]
+	_ = connT
+	var connType *types.Named
+	if m.read.Signature.Recv() != nil {
+		if pt, ok := m.read.Signature.Recv().Type().(*types.Pointer); ok {
+			connType, _ = pt.Elem().(*types.Named)
+		}
+	}
+	if connType == nil {
+		r.Undecided(rule, "transport:methods", p.Pos(m.read.Pos()), "cannot determine the Conn type")
+		return
+	}
+	bypass := ""
+	for i := 0; i < connType.NumMethods(); i++ {
+		switch n := connType.Method(i).Name(); n {
+		case "ReadFrom", "WriteTo", "WriteString", "ReadByte", "WriteByte", "SyscallConn", "File", "NetConn":
+			bypass += " " + n
+		}
+	}
+	r.Check(rule, "transport:no-bypass-method", bypass == "", p.Pos(m.read.Pos()), "the Conn declares no method through which a copier or a caller reaches the transport past Read and Write:%s", bypass)
+	// (2) uses of the embedded transport
+	tf := m.fConn["Conn"]
+	if tf == nil {
+		r.Undecided(rule, "transport:uses", p.Pos(m.read.Pos()), "embedded transport field not found")
+		return
+	}
+	n := 0
+	for _, fn := range p.PkgFuncs(Ech) {
+		for _, b := range fn.Blocks {
+			for _, in := range b.Instrs {
+				ld, ok := in.(*ssa.UnOp)
+				if !ok || ld.Op != token.MUL {
+					continue
+				}
+				fa, ok := ld.X.(*ssa.FieldAddr)
+				if !ok || fieldVar(fa) != tf {
+					continue
+				}
+				for _, ref := range *ld.Referrers() {
+					n++
+					root := core.Root(fn)
+					okUse, what := false, fmt.Sprintf("%T", ref)
+					switch u := ref.(type) {
+					case ssa.CallInstruction:
+						c := u.Common()
+						switch {
+						case c.IsInvoke() && c.Value == ssa.Value(ld):
+							what = "method " + c.Method.Name()
+							switch c.Method.Name() {
+							case "Read":
+								okUse = root == m.read
+							case "Write":
+								okUse = root == m.write
+							case "Close", "SetDeadline", "SetReadDeadline", "SetWriteDeadline", "LocalAddr", "RemoteAddr":
+								okUse = true
+							}
+						default:
+							what = "argument of " + p.CallExpr(u).Name
+							okUse = p.CallExpr(u).Name == "ech.readRecord" && root == m.read
+						}
+					case *ssa.DebugRef:
+						n--
+						continue
+					case *ssa.TypeAssert:
+						what = "conversion to " + u.AssertedType.String()
+					case *ssa.ChangeInterface, *ssa.MakeInterface:
+						what = "conversion to another interface"
+					}
+					r.Check(rule, fmt.Sprintf("transport:use@%s:%s", p.FuncName(root), what), okUse, p.InstrPos(ref), "the transport is used by %s in %s (allowed: readRecord and the passthrough read in Read, writes in Write, Close and deadlines)", what, p.FuncName(root))
+				}
+			}
+		}
+	}
+	r.Check(rule, "transport:uses", n >= 3, p.Pos(m.read.Pos()), "%d uses of the embedded transport examined", n)
+}
+
+// directionOwnership: each direction's state is consulted by that direction
+// only (the read side's deferred error must not decide what Write does - the
+// alert for a refused retried hello is written after readErr was set).
+// Reported under C07, and under C06/C04 because a Write that gives up on the
+// read side's error swallows the alert of a refused second hello.
+func directionOwnership(p *core.Prog, r *core.Run, m *echModel, rule string) {
+	pkg := p.PkgFuncs(Ech)
+	for _, own := range []struct {
+		field string
+		owner *ssa.Function
+	}{{"readErr", m.read}, {"readBuf", m.read}, {"writeBuf", m.write}} {
+		nLd := 0
+		for _, fn := range pkg {
+			for _, b := range fn.Blocks {
+				for _, in := range b.Instrs {
+					ld, ok := in.(*ssa.UnOp)
+					if !ok || ld.Op != token.MUL {
+						continue
+					}
+					fa, ok := ld.X.(*ssa.FieldAddr)
+					if !ok || fieldVar(fa) != m.fConn[own.field] {
+						continue
+					}
+					nLd++
+					if core.Root(fn) != own.owner {
+						r.Check(rule, fmt.Sprintf("owner:%s@%s", own.field, p.FuncName(core.Root(fn))), false, p.InstrPos(ld), "%s is read in %s; it belongs to %s", own.field, p.FuncName(core.Root(fn)), p.FuncName(own.owner))
+					}
+				}
+			}
+		}
+		r.Check(rule, "owner:"+own.field, nLd >= 1, p.Pos(own.owner.Pos()), "%d reads of %s examined", nLd, own.field)
+	}
+}
+
+// refusedNotBuffered: when the handler refuses a retried hello, Read gives up
+// without having put that record into readBuf - otherwise the next Read hands
+// the refused hello to the backend after all (reported under C04 and C07).
+func refusedNotBuffered(p *core.Prog, r *core.Run, m *echModel, rule string) {
+	rd := m.read
+	n := 0
+	for _, ret := range core.Returns(rd) {
+		refused := false
+		for _, f := range p.Facts(ret.Block()) {
+			if f.Op == "!=" && f.R != nil && f.R.Name == "nil" && f.L.Op == "ext" && f.L.Args[0].Op == "call" && f.L.Args[0].Fn == m.handle {
+				refused = true
+			}
+		}
+		if !refused {
+			continue
+		}
+		n++
+		buffered := ""
+		for _, st := range fieldStores(p, []*ssa.Function{rd}, m.fConn["readBuf"]) {
+			if !(st.Block() == ret.Block() && core.Before(st, ret) || st.Block().Dominates(ret.Block())) {
+				continue
+			}
+			for _, a := range p.X(st.Val).Alts() {
+				if a.Op == "ext" && a.Args[0].Op == "call" && a.Args[0].Name == "ech.readRecord" {
+					buffered = p.InstrPos(st)
+				}
+			}
+		}
+		r.Check(rule, fmt.Sprintf("Read:refused-not-buffered#%d", n), buffered == "", p.InstrPos(ret), "Read gives up on a refused retried hello without leaving that record in readBuf (stored at %q)", buffered)
+	}
+	r.Check(rule, "Read:refusal-paths", n >= 1, p.Pos(rd.Pos()), "%d way(s) out of Read for a refused retried hello", n)
+}
+
 // fullReads: the record reader takes the header and the body off the
 // transport with reads that only succeed when the buffer is full (io.ReadFull,
 // or io.ReadAtLeast with the buffer's length): a plain Read may return a part
@@ -428,7 +630,13 @@ func c07Buffers(p *core.Prog, r *core.Run, m *echModel, rule string) {
 			}
 			switch {
 			case bufName == "readBuf" && root == m.newConn:
-				r.Check(rule, key, v.Op == "ext" && v.Args[0].Name == "(*ech.clientHello).Marshal", p.InstrPos(st), "NewConn: first flight = Marshal() output")
+				okM := len(v.Alts()) > 0
+				for _, a := range v.Alts() {
+					if !(a.Op == "ext" && a.Args[0].Name == "(*ech.clientHello).Marshal") {
+						okM = false
+					}
+				}
+				r.Check(rule, key, okM, p.InstrPos(st), "NewConn: first flight = Marshal() output")
 			case bufName == "readBuf" && root == m.read && v.Op == "slice":
 				// readBuf[n:] with n = copy(b, readBuf)
 				lo := v.Args[1]
